@@ -385,6 +385,8 @@ def build_ops(Pm):
     for nm in ['sin', 'cos', 'tan', 'arctan', 'exp', 'sign', 'int', 'frac']:
         op(nm, (lambda nm: lambda a: getattr(a, nm)())(nm), 'none', ('E1', 'OPass'), [('Scalar',)],
            builtins=(nm in ('sign', 'int')))
+    op('round1', lambda a: round(a, 1), 'none', ('E1', 'OPass'), [('Scalar',)])
+    op('sign_nozeros', lambda a: a.sign(zeros=False), 'none', ('E1', 'OPass'), [('Scalar',)])
     op('sqrt', lambda a: a.sqrt(), 'neg', ('E1', 'OSqrt'), [('Scalar',)])
     op('log', lambda a: a.log(), 'nonpos', ('E1', 'OLog'), [('Scalar',)])
     op('arcsin', lambda a: a.arcsin(), 'outside1', ('E1', 'OArc'), [('Scalar',)])
